@@ -11,7 +11,7 @@ NAME="$1"; WT="$2"; PROP="$3"; NEEDS="${4:-}"
 TIER="${TIER:-quick}"
 IDS="${IDS:-C01 C02 C03 C04 C05 C06 C07 C08 C09 C10 C11 C12 C13 C14 C15 C16 C17 C18}"
 OUT=/verif/seeded/$NAME
-SV=/tmp/sv
+SV=${SV:-/tmp/sv}
 mkdir -p "$OUT" $SV
 export CARGO_NET_OFFLINE=true
 if [ -d "$WT/.git" ] || [ -f "$WT/.git" ]; then
@@ -24,9 +24,9 @@ if [ -d "$WT/.git" ] || [ -f "$WT/.git" ]; then
   echo "suite with change: $SUITE"
   DEMO_WITH="n/a"; DEMO_WITHOUT="n/a"
   if [ -n "$DEMO" ]; then
-    cargo test --offline --test seed_demo -- --test-threads=1 >/tmp/seed_demo_with.log 2>&1; DEMO_WITH=$?
+    cargo test --offline --test seed_demo -- --test-threads=1 >$SV/seed_demo_with.log 2>&1; DEMO_WITH=$?
     git apply -R "$OUT/patch.diff"
-    cargo test --offline --test seed_demo -- --test-threads=1 >/tmp/seed_demo_without.log 2>&1; DEMO_WITHOUT=$?
+    cargo test --offline --test seed_demo -- --test-threads=1 >$SV/seed_demo_without.log 2>&1; DEMO_WITHOUT=$?
     git apply "$OUT/patch.diff"
   fi
   echo "demo exit with change: $DEMO_WITH (expect non-zero), without: $DEMO_WITHOUT (expect 0)"
@@ -42,9 +42,9 @@ git -C $SV/repo apply "$OUT/patch.diff" || { echo "patch does not apply"; exit 2
 CAUGHT=""
 cd $SV/verif
 for id in $IDS; do
-  HX_VERIF_ROOT=$SV/verif ./check $id --tier $TIER > /tmp/seedrun_$id.log 2>&1; rc=$?
-  if [ $rc -eq 1 ]; then CAUGHT="$CAUGHT $id"; grep -A1 '^VIOLATION' /tmp/seedrun_$id.log | grep '^  #' | head -1 | cut -c1-260; fi
-  if [ $rc -ge 2 ]; then CAUGHT="$CAUGHT $id(machinery:$rc)"; tail -3 /tmp/seedrun_$id.log; fi
+  HX_VERIF_ROOT=$SV/verif ./check $id --tier $TIER > $SV/seedrun_$id.log 2>&1; rc=$?
+  if [ $rc -eq 1 ]; then CAUGHT="$CAUGHT $id"; grep -A1 '^VIOLATION' $SV/seedrun_$id.log | grep '^  #' | head -1 | cut -c1-260; fi
+  if [ $rc -ge 2 ]; then CAUGHT="$CAUGHT $id(machinery:$rc)"; tail -3 $SV/seedrun_$id.log; fi
 done
 git -C $SV/repo checkout -q -- .
 echo "caught by ($TIER):$CAUGHT"
